@@ -52,3 +52,79 @@ package vgirpc
 //@   pathflag produceFailed
 //@   at call (*HttpServer).runProduceLoop setflag produceFailed result1 != nil
 //@   ensures [local_producererr] produceFailed ==> result != nil
+
+// ---- start / end pairing (C37) ----
+//
+// HTTP. startDispatchHook's start literal marks the hook active only after OnDispatchStart
+// returned normally, and keeps that call's token; a panic leaves it inactive (the recovering
+// literal sets nothing). The cleanup it returns calls the end literal only for an active hook,
+// and the end literal hands OnDispatchEnd that same token, the same dispatch info and statistics,
+// and the error the handler left in *handlerErr. Each RPC handler defers the cleanup once.
+//
+//@ func (*HttpServer).startDispatchHook$2
+//@   property C37
+//@   pathvar tok HookToken
+//@   at call DispatchHook.OnDispatchStart assert [startargs] arg1 == ctx && arg2 == info
+//@   at call DispatchHook.OnDispatchStart setflag tok result1
+//@   ensures [local_started_ret2] active && hookToken == tok
+//
+//@ func (*HttpServer).startDispatchHook$3
+//@   property C37
+//@   at call (*HttpServer).startDispatchHook$3$1 assert [onlyactive] active
+//
+//@ func (*HttpServer).startDispatchHook$3$1
+//@   property C37
+//@   at call DispatchHook.OnDispatchEnd assert [endargs] arg1 == ctx && arg2 == hookToken && arg3 == info && arg4 == stats && arg5 == *handlerErr
+//
+// Pipe. serveOne starts the hook in a recovering literal and ends it in another; the end literal
+// is called exactly when the start returned normally (hookActive), with the start's token, on
+// every path that reaches the end of serveOne after the start.
+//
+//@ func (*Server).serveOne$2
+//@   property C37
+//@   pathvar tok HookToken
+//@   at call DispatchHook.OnDispatchStart assert [startargs] arg1 == ctx && arg2 == dispatchInfo
+//@   at call DispatchHook.OnDispatchStart setflag tok result1
+//@   ensures [local_started_ret2] hookActive && hookToken == tok
+//
+//@ func (*Server).serveOne$3
+//@   property C37
+//@   at call DispatchHook.OnDispatchEnd assert [endargs] arg1 == ctx && arg2 == hookToken && arg3 == dispatchInfo && arg4 == stats && arg5 == handlerErr
+//
+//@ func (*Server).serveOne
+//@   property C37
+//@   pathflag ended
+//@   at call (*Server).serveOne$3 assert [endonce] hookActive && !ended
+//@   at call (*Server).serveOne$3 mark ended
+//@   ensures [local_endruns] hookActive ==> ended
+//
+// Each HTTP dispatcher runs the cleanup exactly once on every path that leaves it after the
+// hook was started (it is deferred right after the start; no path calls it a second time).
+//
+//@ func (*HttpServer).handleUnary
+//@   property C37
+//@   pathflag started
+//@   pathflag cleaned
+//@   at call (*HttpServer).startDispatchHook assert [startonce] !started
+//@   at call (*HttpServer).startDispatchHook mark started
+//@   at call "local:hookCleanup" assert [cleanuponce] started && !cleaned
+//@   at call "local:hookCleanup" mark cleaned
+//@   ensures [local_cleanedifstarted] started ==> cleaned
+//@ func (*HttpServer).handleStreamInit
+//@   property C37
+//@   pathflag started
+//@   pathflag cleaned
+//@   at call (*HttpServer).startDispatchHook assert [startonce] !started
+//@   at call (*HttpServer).startDispatchHook mark started
+//@   at call "local:hookCleanup" assert [cleanuponce] started && !cleaned
+//@   at call "local:hookCleanup" mark cleaned
+//@   ensures [local_cleanedifstarted] started ==> cleaned
+//@ func (*HttpServer).handleStreamExchange
+//@   property C37
+//@   pathflag started
+//@   pathflag cleaned
+//@   at call (*HttpServer).startDispatchHook assert [startonce] !started
+//@   at call (*HttpServer).startDispatchHook mark started
+//@   at call "local:hookCleanup" assert [cleanuponce] started && !cleaned
+//@   at call "local:hookCleanup" mark cleaned
+//@   ensures [local_cleanedifstarted] started ==> cleaned
